@@ -181,7 +181,28 @@ def unit_VarTypes():
     if match_order is None:
         raise G.P.Untranslatable("Dynamic._match_type: default order not found")
 
-    out = [G.HEADER.format(src="secsgem/secs/variables/*.py (class attributes), dynamic.py (decode table, ANYVALUE, _match_type)"),
+    # data items whose Dynamic type list names JIS8 (Dynamic.decode has no JIS8 entry: harmless only while this list is empty)
+    import glob
+    import os
+    jis_items = []
+    n_items = 0
+    for path in sorted(glob.glob(G.src("secs/data_items/*.py"))):
+        t = ast.parse(open(path, encoding="utf-8").read())
+        for node in t.body:
+            if isinstance(node, ast.ClassDef):
+                for item in node.body:
+                    if isinstance(item, (ast.Assign, ast.AnnAssign)):
+                        tgt = item.targets[0] if isinstance(item, ast.Assign) else item.target
+                        if isinstance(tgt, ast.Name) and tgt.id == "__allowedtypes__" and item.value is not None:
+                            n_items += 1
+                            if not isinstance(item.value, (ast.List, ast.Tuple)):
+                                if not (isinstance(item.value, ast.Constant) and item.value.value is None):
+                                    raise G.P.Untranslatable(f"{os.path.basename(path)}: __allowedtypes__ is not a list literal")
+                                continue
+                            if any((G.P.dotted(e) or "").split(".")[-1] == "JIS8" for e in item.value.elts):
+                                jis_items.append(node.name)
+
+    out = [G.HEADER.format(src="secsgem/secs/variables/*.py (class attributes), dynamic.py (decode table, ANYVALUE, _match_type), data_items/*.py (__allowedtypes__)"),
            "namespace SecsModel.Gen.VarTypes\n",
            "/-- class attributes of one variable class; `min`/`max` of a float class are the binary64 bit patterns of the literals -/",
            "structure Row where", "  cls : String", "  base : String", "  format_code : Int", "  text_code : String", "  bytes : Int",
@@ -196,6 +217,8 @@ def unit_VarTypes():
     out.append("def anyvalueTypes : List String := [" + ", ".join(lstr(x) for x in any_types) + "]\n")
     out.append("/-- order in which `Dynamic._match_type` tries the types when none are configured -/")
     out.append("def matchOrder : List String := [" + ", ".join(lstr(x) for x in match_order) + "]\n")
+    out.append(f"/-- data item classes (of {n_items} with an `__allowedtypes__` list) whose list names JIS8 -/")
+    out.append("def dataItemsAllowingJIS8 : List String := [" + ", ".join(lstr(x) for x in jis_items) + "]\n")
     out.append("end SecsModel.Gen.VarTypes\n")
     G.write("VarTypes", "\n".join(out))
     G.FACTS["VarTypes"] = {"rows": rows, "dynamicDecode": dyn_keys, "anyvalueTypes": any_types, "matchOrder": match_order}
@@ -297,8 +320,9 @@ def unit_ItemTypes():
     out.append("/-- `_from_value_float`: SML types tried in order, and the fall-through type -/")
     out.append("def fromValueFloat : List String := [" + ", ".join(lstr(x) for x in flts) + "]")
     out.append(f"def fromValueFloatFallback : String := {lstr(fb_float)}")
-    out.append("/-- the `isinstance` chain of `Item.from_value`: (python type, what is built) in source order -/")
-    out.append("def fromValueChain : List (String × String) := [" + ", ".join(f"({lstr(a)}, {lstr(b)})" for a, b in chain) + "]\n")
+    out.append("/-- the `isinstance` chain of `Item.from_value` in source order: (python type, `self` | `sml` | `fn`, SML type or helper name) -/")
+    out.append("def fromValueChain : List (String × String × String) := ["
+               + ", ".join(f"({lstr(a)}, {lstr(b.split(':')[0])}, {lstr(b.split(':')[1] if ':' in b else '')})" for a, b in chain) + "]\n")
     out.append("end SecsModel.Gen.ItemTypes\n")
     G.write("ItemTypes", "\n".join(out))
     G.FACTS["ItemTypes"] = {"rows": rows, "fromValueUnsigned": uns, "fromValueSigned": sig, "fromValueIntFallback": fb_int,
